@@ -210,6 +210,55 @@ pub fn dec3_event<F: Fam>(out: &mut Out, bytes: &[u8]) {
                   "hdr_block": header_block::<F>(bytes), "hdr_async": header_async::<F>(bytes)}));
 }
 
+fn kind5(j: &J) -> &'static str {
+    match j["k"].as_str() {
+        Some("ok") => "ok",
+        Some("incomplete") => "incomplete",
+        Some("err") => {
+            if j["eof"].as_bool() == Some(true) {
+                "eof"
+            } else {
+                "err"
+            }
+        }
+        Some("panic") => "panic",
+        Some("spin") => "spin",
+        _ => "other",
+    }
+}
+
+/// all byte strings prefix ++ <<b>> for b in 0..=255 through the five entry points of a family
+fn short_rows<F: Fam>(out: &mut Out, prefix: &[u8]) {
+    let mut rows = Vec::with_capacity(256);
+    let mut s = prefix.to_vec();
+    s.push(0);
+    let last = s.len() - 1;
+    for b in 0..=255u8 {
+        s[last] = b;
+        rows.push(json!([b, kind5(&dec_block::<F>(&s)), kind5(&dec_async::<F>(&s, 1)), kind5(&dec_poll::<F>(&s, 1)),
+                         kind5(&header_block::<F>(&s)), kind5(&header_async::<F>(&s))]));
+    }
+    out.ev(json!({"ev": "DecShort", "fam": F::NAME, "prefix": jbytes(prefix), "rows": rows}));
+}
+
+/// C03: exhaustively all strings of up to 2 bytes (thorough: 3 bytes)
+pub fn record_short(out: &mut Out, tier: &str) {
+    dec3_event::<V3>(out, &[]);
+    dec3_event::<V5>(out, &[]);
+    short_rows::<V3>(out, &[]);
+    short_rows::<V5>(out, &[]);
+    for b0 in 0..=255u8 {
+        short_rows::<V3>(out, &[b0]);
+        short_rows::<V5>(out, &[b0]);
+        if tier == "thorough" {
+            for b1 in 0..=255u8 {
+                short_rows::<V3>(out, &[b0, b1]);
+                short_rows::<V5>(out, &[b0, b1]);
+            }
+        }
+    }
+}
+
 pub fn record_dec3(out: &mut Out, tier: &str, seed: u64) {
     let n = if tier == "thorough" { 150000 } else { 5000 };
     let mut rng = Rng::new(seed ^ 0xC06);
@@ -348,6 +397,7 @@ fn random_schedule(rng: &mut Rng, len: usize) -> (Vec<RStep>, RStep) {
 pub fn poll_schedule_run<F: Fam>(out: &mut Out, rng: &mut Rng, run: u64, bytes: &[u8]) {
     let stream = Arc::new(bytes.to_vec());
     let oneshot = dec_poll::<F>(bytes, usize::MAX);
+    out.boundary();
     out.hold = true;
     out.ev(json!({"ev": "Reset", "run_start": true, "run": run, "fam": F::NAME, "bytes": jbytes(bytes), "oneshot": oneshot}));
     let (script, dflt) = random_schedule(rng, bytes.len());
@@ -370,8 +420,110 @@ pub fn poll_schedule_run<F: Fam>(out: &mut Out, rng: &mut Rng, run: u64, bytes: 
     out.hold = false;
 }
 
+/// every chunking of a short stream, without Pendings, with a Pending before every read (future kept),
+/// and with a Pending before every read and the future dropped at each of them
+fn exhaustive_schedules<F: Fam>(out: &mut Out, run: &mut u64, bytes: &[u8]) {
+    let n = bytes.len();
+    if n == 0 || n > 10 {
+        return;
+    }
+    let stream = Arc::new(bytes.to_vec());
+    let oneshot = dec_poll::<F>(bytes, usize::MAX);
+    for mask in 0..(1u32 << (n - 1)) {
+        // chunk boundaries after byte i where bit i is set
+        let mut chunks = Vec::new();
+        let mut cur = 1usize;
+        for i in 0..n - 1 {
+            if mask & (1 << i) != 0 {
+                chunks.push(cur);
+                cur = 1;
+            } else {
+                cur += 1;
+            }
+        }
+        chunks.push(cur);
+        for mode in 0..3 {
+            if mode > 0 && n > 7 && mask % 5 != 0 {
+                continue;
+            }
+            *run += 1;
+            let mut script = Vec::new();
+            for c in &chunks {
+                // a chunk offer may exceed what the decoder asks for: the reader caps it, and the remainder
+                // is delivered by the following answers
+                if mode > 0 {
+                    script.push(RStep::Pending);
+                }
+                script.push(RStep::Data(*c));
+            }
+            let dflt = RStep::Data(usize::MAX);
+            out.boundary();
+    out.hold = true;
+            out.ev(json!({"ev": "Reset", "run_start": true, "run": *run, "fam": F::NAME, "bytes": jbytes(bytes), "oneshot": oneshot.clone()}));
+            let mut st: GenericPollPacketState<F::Header> = Default::default();
+            let mut ndrops = 0u32;
+            let mut dropf = || {
+                if mode == 2 {
+                    ndrops += 1;
+                }
+                mode == 2
+            };
+            let (obs, _) = poll_run::<F>(&stream, script, dflt, &mut dropf, &mut st, 0);
+            for mut e in obs.events {
+                e["run"] = J::from(*run);
+                out.ev(e);
+            }
+            out.ev(json!({"ev": "RunEnd", "run": *run, "polls": obs.polls, "pendings": obs.pendings, "drops": ndrops}));
+            out.hold = false;
+        }
+    }
+}
+
+fn short_streams<F: GenFam>(rng: &mut Rng) -> Vec<Vec<u8>> {
+    let mut v: Vec<Vec<u8>> = Vec::new();
+    let mut b = Budget { big: 0, huge: 0 };
+    for t in F::types() {
+        for _ in 0..40 {
+            let p = F::gen(rng, &mut b, t);
+            if let Some(e) = enc::<F>(&p).1 {
+                if e.len() <= 9 {
+                    v.push(e);
+                    break;
+                }
+            }
+        }
+    }
+    let extra: [&[u8]; 12] = [
+        &[0xC0, 0x01, 0x00], &[0xC0, 0x80, 0x00], &[0x40, 0x02, 0x00, 0x00], &[0x62, 0x02, 0x00, 0x01, 0x09],
+        &[0x30, 0x80, 0x80, 0x80, 0x80, 0x01], &[0x40, 0x00], &[0x40, 0x03, 0x00, 0x01, 0x00], &[0x00, 0x00],
+        &[0x30, 0x04, 0x00, 0x02, 0xC3, 0x28], &[0x82, 0x02, 0x00, 0x01], &[0xE0, 0x00], &[0xD0, 0x00, 0xFF],
+    ];
+    for e in extra {
+        v.push(e.to_vec());
+    }
+    let base: Vec<Vec<u8>> = v.clone();
+    for s in base.iter().take(10) {
+        let mut t = s.clone();
+        t.pop();
+        v.push(t);
+        let c = corrupt(rng, s);
+        if c.len() <= 9 {
+            v.push(c);
+        }
+    }
+    v
+}
+
 pub fn record_poll(out: &mut Out, tier: &str, seed: u64) {
-    let n = if tier == "thorough" { 40000 } else { 1500 };
+    let n = if tier == "thorough" { 40000 } else { 700 };
+    let mut rng0 = Rng::new(seed ^ 0xE05);
+    let mut run0 = 1_000_000u64;
+    for s in short_streams::<V3>(&mut rng0) {
+        exhaustive_schedules::<V3>(out, &mut run0, &s);
+    }
+    for s in short_streams::<V5>(&mut rng0) {
+        exhaustive_schedules::<V5>(out, &mut run0, &s);
+    }
     let mut rng = Rng::new(seed ^ 0xC05);
     let mut b = Budget { big: if tier == "thorough" { 2000 } else { 120 }, huge: if tier == "thorough" { 40 } else { 3 } };
     let mut run = 0u64;
@@ -425,6 +577,7 @@ fn stream_events<F: GenFam>(out: &mut Out, rng: &mut Rng, b: &mut Budget, run: u
     }
     let stream = Arc::new(stream);
     let front = *rng.pick(&["poll", "async", "block"]);
+    out.boundary();
     out.hold = true;
     out.ev(json!({"ev": "StreamStart", "run_start": true, "run": run, "fam": F::NAME, "front": front,
                   "packets": ps.iter().map(|p| F::to_json(p)).collect::<Vec<_>>(), "lens": lens, "total": stream.len()}));
